@@ -719,6 +719,32 @@ Definition is_tuple1_variant (T : space) (e : expr) : bool :=
       end
   | _ => false
   end.
+(* a member that has its OWN schema default (state PDefault) is absent from the value and rendered
+   `Default::default()` (value.rs, value_for_struct_props): finding C06-F12 *)
+Definition fields_f12 (ps : list prop) (fs : list (fname * expr)) : bool :=
+  existsb (fun '(f, x) =>
+             match f, x with
+             | FId n, EDefault => match find_prop n ps with
+                                  | Some p => match p_state p with PDefault _ => true | _ => false end
+                                  | None => false
+                                  end
+             | _, _ => false
+             end) fs.
+Definition is_f12 (T : space) (e : expr) : bool :=
+  match e with
+  | EStruct name fs =>
+      match find_named T name with Some (DStruct _ _ ps _) => fields_f12 ps fs | _ => false end
+  | EVarStruct ty var fs =>
+      match find_named T ty with
+      | Some (DEnum _ _ _ vs _ _) =>
+          match find_variant_ident var vs with
+          | Some vr => match v_det vr with VStruct ps => fields_f12 ps fs | _ => false end
+          | None => false
+          end
+      | _ => false
+      end
+  | _ => false
+  end.
 Definition is_native_parse (e : expr) : bool := match e with EParse (Some _) _ => true | _ => false end.
 Definition is_default_fill (e : expr) : bool := match e with EDefault => true | _ => false end.
 Definition is_empty_ctor (e : expr) : bool :=
@@ -730,12 +756,12 @@ Definition res_eqb_kind (a b : res kind) : bool :=
   | _, _ => false
   end.
 
-(* flags: unit tuple1 intoob nz0 flit native fill emptyctor tuple1var *)
+(* flags: unit tuple1 intoob nz0 flit native fill emptyctor tuple1var f12 *)
 Definition class_flags (T : space) (fuel : nat) (t : id) (v : json) : string :=
   let unit := match get_det T t with Some DUnit => true | _ => false end in
   let fl := fun p => match output_value T fuel t v with ROk e => expr_any p e | _ => false end in
   String.concat "" (map show_bool [unit; fl is_tuple1; fl is_int_oob; fl is_nz_zero; fl has_flit;
-                                   fl is_native_parse; fl is_default_fill; fl is_empty_ctor; fl (is_tuple1_variant T)]).
+                                   fl is_native_parse; fl is_default_fill; fl is_empty_ctor; fl (is_tuple1_variant T); fl (is_f12 T)]).
 
 (* one line per probe for the correspondence check:
    validate | output | typed | eval | approx *)
